@@ -335,3 +335,36 @@ Definition getlev (v : uval) : lev :=
 Definition e_erun (v : uval) : uval := vlist vlev (rev (log (erun (getscript (arg 0 v)) (map geteop (getL (arg 1 v)))))).
 (* [script; chronological log] *)
 Definition e_P13 (v : uval) : uval := vbool (P13 (getscript (arg 0 v)) (map getlev (getL (arg 1 v)))).
+
+(* ---- C03 structures ---- *)
+From PV Require Import Model.Structs Spec.C03s.
+Definition getnet (v : uval) : netinfo :=
+  mkNet (getbytes (arg 0 v)) (getbytes (arg 1 v)) (getbytes (arg 2 v)) (getbool (arg 3 v))
+        (getbytes (arg 4 v)) (getbytes (arg 5 v)) (getbytes (arg 6 v))
+        (getbool (arg 7 v)) (getN (arg 8 v)) (getN (arg 9 v)) (getbool (arg 10 v)) (getbytes (arg 11 v)).
+Definition vnet (n : netinfo) : uval :=
+  VL [vbytes (e_ip n); vbytes (e_mask n); vbytes (e_gw n); vbool (e_status n); vbytes (w_ip n); vbytes (w_mask n);
+      vbytes (w_gw n); vbool (n_server n); vN (w_enc n); vN (w_quality n); vbool (w_status n); vbytes (w_ssid n)].
+Definition e_encode_netinfo (v : uval) : uval := vopt vbytes (encode_netinfo (getnet v)).
+Definition e_decode_netinfo (v : uval) : uval := vopt vnet (decode_netinfo (getnat (arg 0 v)) (getbytes (arg 1 v))).
+Definition e_wf_netinfo (v : uval) : uval := vbool (wf_netinfo (getnet v)).
+Definition getver (v : uval) : version :=
+  mkVer (getbytes (arg 0 v)) (getN (arg 1 v)) (getbytes (arg 2 v)) (getbytes (arg 3 v)) (getN (arg 4 v)) (getN (arg 5 v)) (getN (arg 6 v)).
+Definition vver (x : version) : uval :=
+  VL [vbytes (v_tag x); vN (v_struct x); vbytes (v_dev x); vbytes (v_sig x); vN (v_s1 x); vN (v_s2 x); vN (v_s3 x)].
+Definition e_encode_version (v : uval) : uval := vopt vbytes (encode_version (getver (arg 0 v)) (getN (arg 1 v))).
+Definition e_decode_version (v : uval) : uval := vopt vver (decode_version (getbytes v)).
+
+(* ---- C09 ---- *)
+From PV Require Import Model.Pipeline Spec.C09.
+Definition getpframe (v : uval) : pframe := mkPF (getN (arg 0 v)) (getN (arg 1 v)) (getN (arg 2 v)) (getbool (arg 3 v)).
+Definition vpairs (l : list (N * N)) : uval := vlist (fun p => VL [vN (fst p); vN (snd p)]) l.
+(* [guarded; consumers; frames] -> [valid frames handed; replies; unfinished; alive; stuck] *)
+Definition e_run_pipeline (v : uval) : uval :=
+  let fs := map getpframe (getL (arg 2 v)) in
+  let s := run_pipeline (getbool (arg 0 v)) (getnat (arg 1 v)) fs in
+  let '(h, r, u) := observe09 fs s in
+  VL [vbytes h; vpairs r; vnat u; vnat (alive s); vbytes (stuck s)].
+(* [frames; valid frames handed; replies; unfinished] *)
+Definition e_P09 (v : uval) : uval :=
+  vbool (P09 (map getpframe (getL (arg 0 v))) (getbytes (arg 1 v)) (getpairs (arg 2 v)) (getnat (arg 3 v))).
